@@ -84,7 +84,12 @@ public:
 
   double qProb(double x) const
   {
-    return (x >= p_ + (1 - p_) * dist_->pProb(invariant_)) ? dist_->qProb((x - p_) / (1 - p_)) : dist_->qProb(x / (1 - p_));
+    double below = (1 - p_) * dist_->pProb(invariant_);
+    if (x < below)
+      return dist_->qProb(x / (1 - p_));
+    if (x <= below + p_)
+      return invariant_;
+    return dist_->qProb((x - p_) / (1 - p_));
   }
 
   double pProb(double x) const
